@@ -364,8 +364,9 @@ pub struct EntriesIter {
     // Stack of entry iterators for current directories being iterated over
     iters: Vec<EntryIter>,
 
-    // Stack of deferred directories to return after their contents
-    deferred: Vec<VfsEntry>,
+    // Stack of deferred directories to return after their contents along with the depth they
+    // were found at
+    deferred: Vec<(usize, VfsEntry)>,
 
     // Optional filter that yields only entries that match the predicate
     #[allow(clippy::type_complexity)]
@@ -426,7 +427,7 @@ impl EntriesIter {
 
         // Defer directories as directed
         if entry.is_dir() && self.opts.contents_first {
-            self.deferred.push(entry);
+            self.deferred.push((depth, entry));
             return None;
         }
 
@@ -478,9 +479,11 @@ impl Iterator for EntriesIter {
         // Loop here to ensure that we get the next entry when filtering or deferring
         while !self.iters.is_empty() {
             // Return deferred directories if we've already processed their children
-            if self.opts.contents_first && self.iters.len() < self.deferred.len() {
-                if let Some(entry) = self.deferred.pop() {
-                    return Some(Ok(entry));
+            if let Some((depth, _)) = self.deferred.last() {
+                if self.iters.len() <= *depth {
+                    if let Some((_, entry)) = self.deferred.pop() {
+                        return Some(Ok(entry));
+                    }
                 }
             }
 
@@ -504,7 +507,7 @@ impl Iterator for EntriesIter {
 
         // Return root directory for deferred case
         if self.opts.contents_first && self.iters.len() < self.deferred.len() {
-            if let Some(entry) = self.deferred.pop() {
+            if let Some((_, entry)) = self.deferred.pop() {
                 return Some(Ok(entry));
             }
         }
